@@ -362,7 +362,7 @@ fn lin_check(c: &Case, ctx: &mut CaseCtx) -> Result<(), Fail> {
             }
         }));
     }
-    let report = sched::run(scripts, &c.schedule, &["store.emb.put", "store.emb.get", "store.emb.del", "store.delete.checked", "store.meta.get", "store.meta.set", "store.meta.del"], Duration::from_millis(60));
+    let report = sched::run(scripts, &c.schedule, &["store.emb.put", "store.emb.get", "store.emb.del", "store.delete.checked", "store.meta.get", "store.meta.set", "store.meta.del", "store.cache.put.checked", "store.cache.put.slot", "store.cache.del.unindexed", "store.cache.get.indexed"], Duration::from_millis(60));
     if let Some((t, m)) = report.panics.first() {
         ctx.fail("panic-in-thread", format!("thread {t} panicked: {m}"))?;
     }
